@@ -46,7 +46,7 @@ def monitor(case, line):
                 j = k - 2
                 while j >= 0 and toks[j][0] not in "gw":
                     j -= 1
-                if toks[k - 1] == "u1" and not want and j >= 0 and toks[j] == "g0":
+                if toks[k - 1] == "u1" and not want and j >= 0 and toks[j].startswith("g0"):
                     return "KNOWN:" + KF_STALE_RUN
                 return "uv_run() returned %s but outstanding-work predicate is %s at %s" % (toks[k - 1][1], want, tok)
     return None
